@@ -98,7 +98,8 @@ pub fn check(args: &[String]) -> i32 {
     let mut harness_errors: Vec<String> = vec![];
     let mut all_violations: Vec<ReplayFile> = vec![];
     loop {
-        let out_of_time = max_seconds > 0 && started.elapsed().as_secs() >= max_seconds;
+        // once several violations are in hand the verdict is known: no new chunks
+        let out_of_time = (max_seconds > 0 && started.elapsed().as_secs() >= max_seconds) || all_violations.len() >= 6;
         while !out_of_time && (running.len() as u64) < workers && next_first < runs {
             let n = chunk.min(runs - next_first);
             let out = format!("{}/chunk-{}.json", tmp, chunk_no);
